@@ -2,7 +2,7 @@ use crate::utils::{AttrParams, DeriveType, State};
 use convert_case::{Case, Casing};
 use proc_macro2::TokenStream;
 use quote::{format_ident, quote};
-use syn::{DeriveInput, Fields, Result};
+use syn::{ext::IdentExt as _, DeriveInput, Fields, Result};
 
 pub fn expand(input: &DeriveInput, trait_name: &'static str) -> Result<TokenStream> {
     let state = State::with_attr_params(
@@ -29,7 +29,7 @@ pub fn expand(input: &DeriveInput, trait_name: &'static str) -> Result<TokenStre
         let variant = variant_state.variant.unwrap();
         let fn_name = format_ident!(
             "is_{}",
-            variant.ident.to_string().to_case(Case::Snake),
+            variant.ident.unraw().to_string().to_case(Case::Snake),
             span = variant.ident.span(),
         );
         let variant_ident = &variant.ident;
